@@ -271,7 +271,8 @@ def c07():
             un = c * r + max(c, r) + 3
             quick = (c, r) in G3Q and mode in (0, 2)
             add("C07", f"c07_{nm}_tok_{c}x{r}", f"c07::remove_tok({mode}, {c}, {r}, {b((c + r) % 2 == 1)}, false, 0)", un, "quick" if quick else "thorough", also=["C01", "C05"])
-            add("C07", f"c07_{nm}_tok_script_{c}x{r}", f"c07::remove_tok({mode}, {c}, {r}, false, true, 0)", un, "thorough", also=["C05"])
+            add("C07", f"c07_{nm}_tok_script_{c}x{r}", f"c07::remove_tok({mode}, {c}, {r}, false, true, 0)", un,
+                "quick" if (c, r) in [(2, 3), (3, 2)] and mode in (0, 2) else "thorough", also=["C05"])
             # leaked drains: C12
             quick = (c, r) in [(2, 3), (3, 2), (1, 1)] and mode in (0, 2)
             add("C12", f"c12_leak_{nm}_{c}x{r}", f"c07::remove_tok({mode}, {c}, {r}, false, false, 1)", un, "quick" if quick else "thorough")
@@ -323,6 +324,11 @@ c05()
 
 
 def c12():
+    for (c, r) in [(2, 3), (3, 2), (1, 1), (3, 3)]:
+        for is_row in (True, False):
+            # the row variant hits the recorded DrainRow finding for idx < rows-1; it is listed under its own name
+            add("C12", f"c12_leak_remove_{'row' if is_row else 'col'}_u8_{c}x{r}", f"c12::leak_drain_u8({b(is_row)}, {c}, {r})", 8,
+                "quick" if (c, r) in [(2, 3), (1, 1)] and not is_row else "thorough")
     names = {0: "rows", 1: "rows_mut", 2: "col", 3: "col_mut", 4: "cells", 5: "cells_mut", 6: "view", 7: "view_mut", 8: "into_iter"}
     for what, nm in names.items():
         add("C12", f"c12_leak_{nm}_2x2", f"c12::leak_borrow({what}, 2, 2)", 10, "quick")
@@ -341,7 +347,7 @@ def c11():
     for mode in (0, 2):
         for have in (0, 1, 2):
             add("C11", f"c11_lying_{MODES[mode]}_empty_have{have}", f"c11::lying_insert_empty({mode}, {have})", 8, "quick" if have != 1 else "thorough",
-                stubs=[CAPOVF_STUB])
+                kind="maypanic", stubs=[CAPOVF_STUB])
     cn = {0: "fill", 1: "view_fill", 2: "clone_from_slice", 3: "clone_from_toodee", 4: "clone", 5: "from_view"}
     for op, nm in cn.items():
         for (c, r) in [(2, 2), (2, 3)]:
@@ -352,6 +358,8 @@ def c11():
             add("C11", f"c11_crash_{nm}_{c}x{r}", f"c11::crash_sort({op}, {c}, {r})", c * r + 5, "quick" if (c, r) == (3, 2) and op in (0, 3, 5) else "thorough")
     for op, nm in ((0, "new"), (1, "init")):
         add("C11", f"c11_crash_{nm}_2x2", f"c11::crash_construct({op}, 2, 2)", 8, "quick")
+    for (c, r) in [(2, 2), (2, 3), (1, 1)]:
+        add("C11", f"c11_crash_drop_clear_{c}x{r}", f"c11::crash_drop_clear({c}, {r})", c * r + 4, "quick" if (c, r) == (2, 2) else "thorough")
 
 
 CAPOVF_STUB = ("alloc::raw_vec::capacity_overflow", "crate::stubs::capacity_overflow_observed")
@@ -392,9 +400,10 @@ def c15():
             q = "quick" if (nm == "interior2x2" and mr == 1) or (nm == "right2x3" and mr in (1, 2)) or (nm == "top4x1" and mr == 0) else "thorough"
             add("C15", f"c15_translate_view_{nm}_mr{mr}", f"c15::translate(1, 4, 4, {sc}, {sr}, {ec}, {er}, {mr})", 7, q, stubs=[ROTATE_STUB], also=["C04"] if q == "quick" else [])
     add("C15", "c15_translate_mini_interior2x2_mr1", "c15::translate(2, 4, 4, 1, 1, 3, 3, 1)", 7, "thorough", stubs=[ROTATE_STUB])
-    add("C15", "c15_translate_rejected_owned_2x3", "c15::translate_rejected(0, 2, 3)", 7, kind="panic", stubs=[ROTATE_STUB])
-    add("C15", "c15_translate_rejected_owned_0x0", "c15::translate_rejected(0, 0, 0)", 7, "thorough", kind="panic", stubs=[ROTATE_STUB])
-    add("C15", "c15_translate_rejected_view_4x4", "c15::translate_rejected(1, 4, 4)", 7, kind="panic", stubs=[ROTATE_STUB])
+    for which in (0, 1, 2):
+        add("C15", f"c15_translate_rejected_owned_2x3_w{which}", f"c15::translate_rejected(0, 2, 3, {which})", 7, kind="panic", stubs=[ROTATE_STUB])
+        add("C15", f"c15_translate_rejected_owned_0x0_w{which}", f"c15::translate_rejected(0, 0, 0, {which})", 7, "thorough", kind="panic", stubs=[ROTATE_STUB])
+        add("C15", f"c15_translate_rejected_view_4x4_w{which}", f"c15::translate_rejected(1, 4, 4, {which})", 7, "quick" if which < 2 else "thorough", kind="panic", stubs=[ROTATE_STUB])
     for rows in (True, False):
         nm = "flip_rows" if rows else "flip_cols"
         for (c, r) in [(3, 3), (2, 3), (3, 2), (1, 1), (4, 4), (0, 0)]:
@@ -415,7 +424,8 @@ COL_ENTRIES = {6: "sort_by_col", 7: "sort_unstable_by_col", 8: "sort_by_col_key"
 
 def sorts(prop, entries, by_row):
     for e, nm in entries.items():
-        stubs = [SORT_STUB] if e in (1, 3, 5, 7, 9) else []
+        # the contract stub is installed for the stable entry points too: they must never reach the unstable routine
+        stubs = [SORT_STUB]
         # owned shapes: the sorted dimension has n lines (columns for a row sort)
         shapes = [(3, 2), (2, 3), (3, 3), (4, 2), (2, 4), (1, 1), (3, 1), (1, 3)]
         for (c, r) in shapes:
@@ -434,9 +444,10 @@ def sorts(prop, entries, by_row):
                 quick = (wn == ("interior3x2" if by_row else "interior2x3")) and line == 1 and e in (0, 1, 6, 7, 8)
                 add(prop, f"{prop.lower()}_{nm}_view_{wn}_l{line}", f"c16::sort({e}, 1, 4, 4, {sc}, {sr}, {ec}, {er}, {line})", 7, "quick" if quick else "thorough",
                     stubs=stubs, also=["C04"] if quick else [])
-        add(prop, f"{prop.lower()}_{nm}_rejected_owned_2x3", f"c16::sort_rejected({e}, 0, 2, 3)", 7, "quick" if e in (0, 1, 2, 6, 8, 9, 10) else "thorough", kind="panic", stubs=stubs)
-        add(prop, f"{prop.lower()}_{nm}_rejected_view_4x4", f"c16::sort_rejected({e}, 1, 4, 4)", 7, "thorough", kind="panic", stubs=stubs)
-        add(prop, f"{prop.lower()}_{nm}_rejected_mini_4x4", f"c16::sort_rejected({e}, 2, 4, 4)", 7, "thorough", kind="panic", stubs=stubs)
+        for which in (0, 1):
+            add(prop, f"{prop.lower()}_{nm}_rejected_owned_2x3_w{which}", f"c16::sort_rejected({e}, 0, 2, 3, {which})", 7, "quick" if which == 0 or e in (0, 6) else "thorough", kind="panic", stubs=stubs)
+            add(prop, f"{prop.lower()}_{nm}_rejected_view_4x4_w{which}", f"c16::sort_rejected({e}, 1, 4, 4, {which})", 7, "quick" if which == 0 and e in (0, 1, 6, 8) else "thorough", kind="panic", stubs=stubs)
+            add(prop, f"{prop.lower()}_{nm}_rejected_mini_4x4_w{which}", f"c16::sort_rejected({e}, 2, 4, 4, {which})", 7, "thorough", kind="panic", stubs=stubs)
 
 
 sorts("C16", ROW_ENTRIES, True)
@@ -482,10 +493,11 @@ def c18():
         q = "quick" if (c, r) in [(0, 0), (2, 3), (3, 1)] else "thorough"
         add("C18", f"c18_roundtrip_u8_{c}x{r}", f"c18::roundtrip_u8({c}, {r})", 12, q)
         add("C18", f"c18_roundtrip_u32_{c}x{r}", f"c18::roundtrip_u32({c}, {r})", 12, "quick" if (c, r) in [(2, 3), (0, 0)] else "thorough")
-    for (c, r) in [(3, 3), (2, 3), (1, 1)]:
-        q = "quick" if (c, r) == (3, 3) else "thorough"
-        add("C18", f"c18_roundtrip_view_{c}x{r}", f"c18::roundtrip_view({c}, {r}, false)", 12, q)
-        add("C18", f"c18_roundtrip_viewmut_{c}x{r}", f"c18::roundtrip_view({c}, {r}, true)", 12, q)
+    wins = {"interior": (1, 1, 3, 3), "full": (0, 0, 3, 3), "empty_edge": (3, 3, 3, 3), "col": (2, 0, 3, 3), "row": (0, 1, 3, 2), "empty_mid": (1, 1, 1, 2)}
+    for nm, (sc, sr, ec, er) in wins.items():
+        q = "quick" if nm in ("interior", "empty_edge", "col") else "thorough"
+        add("C18", f"c18_roundtrip_view_{nm}", f"c18::roundtrip_view(3, 3, {sc}, {sr}, {ec}, {er}, false)", 12, q)
+        add("C18", f"c18_roundtrip_viewmut_{nm}", f"c18::roundtrip_view(3, 3, {sc}, {sr}, {ec}, {er}, true)", 12, q if nm != "col" else "thorough")
 
 
 c18()
@@ -498,11 +510,29 @@ def c19():
         "cr": (10, 2), "cd": (20, 2), "rd": (21, 2), "c": (0, 1), "d": (2, 1), "empty": (0, 0),
         "crdd": (2210, 4), "ccrd": (2100, 4), "crrd": (2110, 4), "crdu": (3210, 4), "ucrd": (2103, 4), "crud": (2310, 4), "dcrd": (2102, 4),
     }
-    quick = {"crd", "drc", "cr", "rd", "crdd", "crdu", "empty", "ccrd"}
-    for nm, (p, ln) in pats.items():
-        for free_cols in (True, False):
-            q = "quick" if nm in quick and (free_cols or nm in ("crd", "drc")) else "thorough"
-            add("C19", f"c19_doc_{nm}_{'fc' if free_cols else 'fr'}", f"c19::document({p}, {ln}, {b(free_cols)})", 12, q)
+    def doc(nm, dimsel, datalen, bad, mode, tier):
+        p, ln = pats[nm]
+        add("C19", f"c19_doc_{nm}_s{dimsel}_n{datalen}_b{bad}_m{mode}", f"c19::document({p}, {ln}, {dimsel}, {datalen}, {bad}, {mode})", 12, tier)
+
+    # complete documents, small symbolic dimensions, every data length around the products
+    for nm in ("crd", "drc", "rcd", "cdr", "dcr", "rdc"):
+        for datalen in (0, 1, 2, 4, 6):
+            q = "quick" if (nm == "crd" and datalen in (0, 4)) or (nm == "drc" and datalen == 2) else "thorough"
+            doc(nm, 0, datalen, 0, {"crd": 0, "drc": 1, "rcd": 2}.get(nm, 0), q)
+    # the overflow domain: one big constant dimension x one free 64-bit dimension
+    for dimsel in range(1, 9):
+        for datalen in (0, 2):
+            q = "quick" if (dimsel in (3, 6) and datalen == 0) or (dimsel == 1 and datalen == 2) else "thorough"
+            doc("crd", dimsel, datalen, 0, 0, q)
+    # ill-typed fields
+    for bad in range(1, 8):
+        doc("crd", 0, 2, bad, 0, "quick" if bad in (1, 3, 4) else "thorough")
+        doc("drc", 0, 2, bad, 2, "thorough")
+    # incomplete / duplicated / unknown fields
+    for nm in ("cr", "cd", "rd", "c", "d", "empty", "crdd", "ccrd", "crrd", "crdu", "ucrd", "crud", "dcrd"):
+        q = "quick" if nm in ("cr", "rd", "empty", "crdd", "ccrd", "crdu") else "thorough"
+        doc(nm, 0, 2, 0, 1 if nm in ("crdd", "crdu") else 0, q)
+        doc(nm, 0, 0, 0, 2, "thorough")
 
 
 c19()
